@@ -203,6 +203,7 @@ func leaves() []*Expr {
 		L(Long(1)), L(Str("s")), L(Bool(true)), L(Entity("U", "alice")), L(Set(Long(1), Long(2))), L(Rec(KV{"a", Long(1)}, KV{"r", Rec(KV{"b", Long(1)})}, KV{"s", Set(Long(1), Long(2))})), L(Entity("G", "g2")),
 		L(Rec(KV{"k", Long(1)})), L(Set(Long(1))), L(Set(Rec(KV{"k", Set(Long(1))}))),
 		Access(Var("context"), "r"), L(Set(Rec(KV{"b", Long(1)}), Rec(KV{"b", Long(2)}))), L(Set(Set(Long(1), Long(2)), Set(Long(2)))),
+		Access(Var("context"), "missing"), // fails whenever the context is known: an operand that a short-circuiting operator must not reach
 	}
 }
 
